@@ -27,9 +27,9 @@ TRequest == IsEvent("request") /\ Built /\ RequestInvoice(Rec[l].n, Rec[l].src)
 TRespond == IsEvent("respond") /\ Built /\ RespondInvoice(Rec[l].n, Rec[l].src, Rec[l].cls)
 TRespondRefund == IsEvent("respond_refund") /\ Built /\ RespondToRefund(Rec[l].n, Rec[l].src)
 
-\* a builder call that failed is not judged (the property does not promise that builders succeed;
-\* the check's driver treats frequent failures as a tool error): nothing is built, and the engine
-\* stops building in this run -- the objects that exist are still verified
+\* a derivation step of part (i) that failed is not judged here (it may be the engine that found no
+\* alteration the parser accepts; the builders' admissible inputs are judged in part (iii)): nothing
+\* is built, and the engine stops building in this run -- the objects that exist are still verified
 BuildEvents == {"offer", "refund", "alter", "request", "respond", "respond_refund"}
 TBuildRefused == l <= Len(Rec) /\ Rec[l].ev \in BuildEvents /\ ~Rec[l].ok /\ l' = l + 1
                  /\ UNCHANGED pvars
@@ -38,10 +38,16 @@ TVerifyInvReq == IsEvent("verify_invreq")
   /\ VerifyInvReq(Rec[l].n, Rec[l].obj, Rec[l].via, Rec[l].nz, Rec[l].accept)
 TVerifyInvoice == IsEvent("verify_invoice") /\ VerifyInvoice(Rec[l].n, Rec[l].obj, Rec[l].accept)
 
-\* part (ii)
-TCase == IsEvent("case") /\ Rec[l].built /\ CaseBuild(Rec[l].fmt)
-\* a field combination the builder does not accept is outside the property's quantifier
-TCaseRefused == IsEvent("case") /\ ~Rec[l].built /\ UNCHANGED pvars
+\* parts (ii) and (iii): a builder call with the presence subset / the numbers it was given and
+\* its answer -- judged: an admissible input must be accepted, an unrepresentable one refused
+TCase11 == IsEvent("case") /\ Rec[l].fmt \in {"b11", "n11"} /\ CaseBuild11(Rec[l].vals, Rec[l].built)
+TCase12 == IsEvent("case") /\ Rec[l].fmt = "b12" /\ CaseBuild12(Rec[l].pres, Rec[l].built)
+TCaseNum12 == IsEvent("case") /\ Rec[l].fmt = "n12" /\ CaseBuildNum12(Rec[l].vals, Rec[l].built)
+TCaseInv12 == IsEvent("case") /\ Rec[l].fmt = "i12" /\ CaseBuildInv12(Rec[l].vals, Rec[l].built)
+TExposed == IsEvent("exposed") /\ CaseExposed(Rec[l].vals)
+TAssembled == IsEvent("assembled")
+  /\ CaseAssembled(Rec[l].vals, [canon |-> Rec[l].canon, parsed |-> Rec[l].parsed, reser |-> Rec[l].reser,
+                                  signer_eq |-> Rec[l].signer_eq, got |-> Rec[l].got])
 TRoundTrip == IsEvent("roundtrip")
   /\ CaseRoundTrip(Rec[l].kind, [parsed |-> Rec[l].parsed, equal |-> Rec[l].equal,
                                  acc |-> Rec[l].acc, reser |-> Rec[l].reser])
@@ -53,7 +59,8 @@ TFuzz == IsEvent("fuzz") /\ Fuzz
 
 TraceNext == \/ TReset \/ TOffer \/ TRefund \/ TAlter \/ TRequest \/ TRespond \/ TRespondRefund
              \/ TBuildRefused \/ TVerifyInvReq \/ TVerifyInvoice
-             \/ TCase \/ TCaseRefused \/ TRoundTrip \/ TMut11 \/ TMut12 \/ TFuzz
+             \/ TCase11 \/ TCase12 \/ TCaseNum12 \/ TCaseInv12 \/ TExposed \/ TAssembled
+             \/ TRoundTrip \/ TMut11 \/ TMut12 \/ TFuzz
 
 TraceSpec == TraceInit /\ [][TraceNext]_tvars
 
